@@ -209,39 +209,55 @@ def applyRq : Requeue → Pending → Pending
   | .cmds nc es, p => addCmds nc es p
   | .asks nc es, p => addAsks nc es p
 
+def mkRq (isAsk : Bool) (nc : Conn) (es : List Entry) : Requeue :=
+  if isAsk then .asks nc es else .cmds nc es
+
+/-- `continue` right after storing the result: not a redirect-class reply, or a retryable failure that is
+    not to be retried (retries disabled, command not retryable, negative `RetryDelay`) -/
+def skips (o : Opt) (cache : Bool) (attempts : Nat) (cm : Cmd) (mode : Mode) : Bool :=
+  mode = .none || (mode = .retry && (!o.retry || (!cache && !cm.retryable) || !decide (attempts ≤ o.budget)))
+
+/-- `mi`, `ei` after the (conditional) transaction search at position `i` -/
+def searchTx (hasInit cache : Bool) (cs : List Entry) (t : Tx) (i : Nat) : Tx :=
+  if hasInit && !cache && eiLt t i then { mi := scanStart cs i, ei := some (scanUp cs (cs.length + 1) i) } else t
+
+/-- "a transaction is found" -/
+def txFound (hasInit cache : Bool) (cs : List Entry) (resps : List Reply) (t t' : Tx) (i : Nat) : Bool :=
+  hasInit && !cache && eiLt t i &&
+    (match t'.mi, t'.ei with
+     | some m, some e => decide (e < cs.length) && isM cs m && isE cs e && decide ((resps[m]?).map strOf = some kOK)
+     | _, _ => false)
+
+/-- "the current cmd is in the processed transaction and has been added to the retries" -/
+def txInside (hasInit cache : Bool) (cs : List Entry) (t' : Tx) (i : Nat) : Bool :=
+  hasInit && !cache &&
+    (match t'.mi, t'.ei with
+     | some m, some e => decide (m < i) && decide (i < e) && isM cs m
+     | _, _ => false)
+
+def txBlock (cs : List Entry) (t' : Tx) : List Entry :=
+  match t'.mi, t'.ei with
+  | some m, some e => (cs.drop m).take (e + 1 - m)
+  | _, _ => []
+
 /-- the decision part of the loop body (everything after `results.s[ii] = resp`) -/
 def decideStep (o : Opt) (cache hasInit : Bool) (attempts : Nat) (cc : Conn) (cs : List Entry) (resps : List Reply)
     (c : Client) (t : Tx) (i ii : Nat) (cm : Cmd) (resp : Reply) : Dec :=
   let mode := classify resp
-  if mode = .none then { c := c, t := t }
-  else if mode = .retry ∧ (!o.retry ∨ (!cache ∧ !cm.retryable) ∨ ¬ attempts ≤ o.budget) then { c := c, t := t }
+  if skips o cache attempts cm mode then { c := c, t := t }
   else
-    -- (a retryable failure whose `RetryDelay` is negative was dropped by the line above)
-    let delayOk : Bool := mode = .retry
     let isAsk : Bool := match mode with | .ask _ => true | _ => false
-    let (nc, c') : Conn × Client := match mode with
+    let ncc : Conn × Client := match mode with
       | .move addr => redirectOrNew c addr cc cm.slot true
       | .ask addr => redirectOrNew c addr cc cm.slot false
       | _ => (cc, c)
-    -- transaction search
-    let t' : Tx := if hasInit ∧ !cache ∧ eiLt t i then { mi := scanStart cs i, ei := some (scanUp cs (cs.length + 1) i) } else t
-    let found : Bool := hasInit && !cache && eiLt t i &&
-      (match t'.mi, t'.ei with
-       | some m, some e => decide (e < cs.length) && isM cs m && isE cs e && decide ((resps[m]?).map strOf = some kOK)
-       | _, _ => false)
-    if found then
-      match t'.mi, t'.ei with
-      | some m, some e =>
-        let block := (cs.drop m).take (e + 1 - m)
-        { c := c', t := t', rq := if isAsk then .asks nc block else .cmds nc block, redirInc := true }
-      | _, _ => { c := c', t := t' }
-    else
-      let inside : Bool := hasInit && !cache &&
-        (match t'.mi, t'.ei with
-         | some m, some e => decide (m < i) && decide (i < e) && isM cs m
-         | _, _ => false)
-      if inside then { c := c', t := t' }
-      else { c := c', t := t', rq := if isAsk then .asks nc [(ii, cm)] else .cmds nc [(ii, cm)], redirInc := mode ≠ .retry, delay := delayOk }
+    let t' := searchTx hasInit cache cs t i
+    let found := txFound hasInit cache cs resps t t' i
+    let inside := txInside hasInit cache cs t' i
+    { c := ncc.2, t := t',
+      rq := if found then mkRq isAsk ncc.1 (txBlock cs t') else if inside then .nothing else mkRq isAsk ncc.1 [(ii, cm)],
+      redirInc := found || (!inside && mode ≠ .retry),
+      delay := !found && !inside && mode = .retry }
 
 /-- body of the `for i, resp := range resps` loop -/
 def resultStep (o : Opt) (cache hasInit : Bool) (attempts : Nat) (cc : Conn) (cs : List Entry) (resps : List Reply)
@@ -261,20 +277,20 @@ def resultFn (o : Opt) (cache hasInit : Bool) (attempts : Nat) (cc : Conn) (cs :
 
 def callKind (cache : Bool) : CallKind := if cache then .multiCache else .multi
 
+/-- one call to the node and the scattering of its replies: `cc.DoMulti(…)` + `doresultfn(…)` -/
+def phase (o : Opt) (cache hasInit : Bool) (attempts : Nat) (cc : Conn) (kind : CallKind) (items : List Item)
+    (es : List Entry) (a : Acc) (w : World) : Acc × World :=
+  let out := answerAll (logCall w { conn := cc, kind := kind, items := items }) cc.addr (es.map (·.2))
+  (resultFn o cache hasInit attempts cc es out.1 a, out.2)
+
 /-- one `doretry`: the `commands` sub-batch, then the `cAskings` sub-batch -/
 def doRetry (o : Opt) (cache hasInit : Bool) (attempts : Nat) (cc : Conn) (re : Retry) (a : Acc) (w : World) : Acc × World :=
-  let (a1, w1) :=
-    if re.cmds ≠ [] then
-      let w0 := logCall w { conn := cc, kind := callKind cache, items := re.cmds.map fun e => Item.cmd e.2.id }
-      let (rs, w') := answerAll w0 cc.addr (re.cmds.map (·.2))
-      (resultFn o cache hasInit attempts cc re.cmds rs a, w')
+  let s1 : Acc × World :=
+    if re.cmds ≠ [] then phase o cache hasInit attempts cc (callKind cache) (re.cmds.map fun e => Item.cmd e.2.id) re.cmds a w
     else (a, w)
   if re.asks ≠ [] then
-    let items := if cache then askingCacheItems re.asks else askingItems false re.asks
-    let w0 := logCall w1 { conn := cc, kind := .multi, items := items }
-    let (rs, w') := answerAll w0 cc.addr (re.asks.map (·.2))
-    (resultFn o cache hasInit attempts cc re.asks rs a1, w')
-  else (a1, w1)
+    phase o cache hasInit attempts cc .multi (if cache then askingCacheItems re.asks else askingItems false re.asks) re.asks s1.1 s1.2
+  else s1
 
 def runRound (o : Opt) (cache hasInit : Bool) (attempts : Nat) : Pending → Acc → World → Acc × World
   | [], a, w => (a, w)
